@@ -359,6 +359,10 @@ class _AsyncioProxy:
 _CTL_REF = [None]
 
 
+class LoopDeadlock(Exception):
+    pass
+
+
 def _scripted_submitter_class():
     from pydra.engine.submitter import Submitter
 
@@ -390,6 +394,13 @@ def _scripted_submitter_class():
             if ctl is not None and ctl.record_real_calls:
                 await asyncio.sleep(0)  # the freshly created worker.run tasks register with the controller
                 ctl.env_step()
+                if futures and not ctl.pending:
+                    for _ in range(3):
+                        await asyncio.sleep(0)
+                    if not any(f.done() for f in futures):
+                        # the loop waits for a job the worker never got / that already finished: it would hang
+                        ctl.ev("deadlock", sorted(f.get_name() for f in futures)[:4])
+                        raise LoopDeadlock("expand_workflow_async waits for futures although no job is executing")
             return await super().fetch_finished(futures)
 
     ScriptedSubmitter.__qualname__ = "ScriptedSubmitter"
@@ -426,6 +437,7 @@ class Controller:
         self.pending = []  # labels handed to the worker, not finished yet (ghost `executing`)
         self.jobobj = {}
         self.futs = {}
+        self.outcome = {}
         self.vis_at = {}  # label -> remaining completions until the lock file appears
         self.visible = set()
         self.seen_running = set()  # lock file was on disk during at least one observation (get_runnable_tasks call)
@@ -448,8 +460,19 @@ class Controller:
 
     def submit(self, job, future=True):
         lb = label(job)
-        if lb in self.jobobj and lb not in self.finished and lb in self.pending:
-            self.ev("resubmit", lb)
+        again = lb in self.pending or lb in self.finished
+        self.ev("submit", lb)
+        if again:
+            # handed to the worker a second time (the contract forbids it; the oracle sees the second "submit").
+            # A real worker would find the first run's lock / result: mirror that without a new script choice.
+            f = self.sub.loop.create_future() if future else None
+            if lb in self.finished:
+                if f is not None:
+                    res, exc = self.outcome[lb]
+                    f.set_result(res) if exc is None else f.set_exception(exc)
+            elif f is not None:
+                self.futs.setdefault(lb, []).append(f)
+            return f
         self.jobobj[lb] = job
         t = job.task
         self.h["jobs"][lb] = {
@@ -460,7 +483,6 @@ class Controller:
             "raw_none": [s for s, p in zip(("x", "y", "z"), self.spec.node(job.name).preds) if getattr(t, s) is None],
             "id": body_value(t.tag, t.x, t.y, t.z)["id"],
         }
-        self.ev("submit", lb)
         self.pending.append(lb)
         d = self.o.vis[self.script.choose(len(self.o.vis), f"vis {lb}")] if len(self.o.vis) > 1 else self.o.vis[0]
         self.vis_at[lb] = d
@@ -468,7 +490,7 @@ class Controller:
             self._make_visible(lb)
         if future:
             f = self.sub.loop.create_future()
-            self.futs[lb] = f
+            self.futs.setdefault(lb, []).append(f)
             return f
 
     def _make_visible(self, lb):
@@ -543,22 +565,26 @@ class Controller:
         if not ok:
             self.nfail += 1
         self.ev("finish", lb, "ok" if ok else "fail", lb in self.seen_running)
-        f = self.futs.get(lb)
-        if f is not None and not f.done():
-            if exc is None:
-                f.set_result(res)
-            else:
-                f.set_exception(exc)
+        self.outcome[lb] = (res, exc)
+        for f in self.futs.get(lb, []):
+            if not f.done():
+                if exc is None:
+                    f.set_result(res)
+                else:
+                    f.set_exception(exc)
         return res, exc
 
     # sequential worker: the job runs to completion inside worker.run
     def run_now(self, job):
         lb = label(job)
         if lb in self.finished:
+            # the sequential loop hands a finished job to the worker again: Job.run would return the stored
+            # result without executing (that is C11's business); not an execution
             self.ev("rerun-cached", lb)
-            res = job.result()
-            if res is not None and not res.errored:
-                return res
+            res, exc = self.outcome[lb]
+            if exc is not None:
+                raise exc
+            return res
         self.submit(job, future=False)
         ok = True
         if self.nfail < self.o.fail:
@@ -569,9 +595,10 @@ class Controller:
         return res
 
     def cancel(self):
-        for f in self.futs.values():
-            if not f.done():
-                f.cancel()
+        for fs in self.futs.values():
+            for f in fs:
+                if not f.done():
+                    f.cancel()
 
 
 def _tb_functions(exc):
@@ -794,16 +821,19 @@ def _drive_real(opts, ctl, sub, wf_job):
         return wf_job.return_values.get("exec_graph")
 
     try:
-        sub.loop.run_until_complete(sub.expand_workflow_async(wf_job, False))
+        sub.loop.run_until_complete(asyncio.wait_for(sub.expand_workflow_async(wf_job, False), timeout=60))
     except CheckerError:
         raise
+    except (asyncio.TimeoutError, TimeoutError):
+        ctl.h["stalled"] = True
+        ctl.ev("timeout", "expand_workflow_async did not finish within 60 s of wall-clock time")
     except Exception as e:  # noqa
         chain, x = [], e
         while x is not None and len(chain) < 6:
             chain.append(x)
             x = x.__context__ or x.__cause__
         inner = ctl.h.get("raised_in")
-        stalled = any(isinstance(c, RuntimeError) and "Something has gone wrong" in str(c) for c in chain)
+        stalled = any((isinstance(c, RuntimeError) and "Something has gone wrong" in str(c)) or isinstance(c, LoopDeadlock) for c in chain)
         aggregated = isinstance(e, RuntimeError) and str(e).startswith("Workflow job ")
         if aggregated:
             ctl.h["error_message"] = str(e)  # the aggregated error the property talks about
@@ -832,9 +862,11 @@ def timeline(h):
     for i, e in enumerate(h["events"]):
         yield i, e, list(executing), dict(finished)
         if e[0] == "submit":
-            executing.append(e[1])
+            if e[1] not in executing:
+                executing.append(e[1])
         elif e[0] == "finish":
-            executing.remove(e[1])
+            if e[1] in executing:
+                executing.remove(e[1])
             finished[e[1]] = e[2]
 
 
